@@ -26,4 +26,4 @@ def unit():
             ('out', P_REC, 'block.out_fut()@ == old(self).backend.enc_fn()(xor_seq(block.in_val()@, old(self).iv@))'),
             ('state', P_REC + ('C09',), 'final(self).iv@ == xor_seq(block.in_val()@, block.out_fut()@)'),
         ] + K.frame_iv_backend('backend'), stmts={'0': 'let ghost x0 = block.in_val()@;', 'end': K.BACKEND_PROOF_1})})
-    return Unit('pcbc', prelude=K.PRELUDE_BLOCK, spec=['steps.rs'], mods=[lib, dec, enc])
+    return Unit('pcbc', prelude=K.PRELUDE_BLOCK, spec=['steps.rs'], mods=K.DEPS() + [lib, dec, enc])
